@@ -153,15 +153,19 @@ class C16(Check):
                     ctx.violation("no-clobber-error-names-no-colliding-file", case, f"stderr/log: {said[-300:]!r}")
         ctx.outcome(h64((case, rc, sorted(after))))
         cli.cleanup(outd)
-        # --- clobber twin
+        # --- clobber twins: the default, and --clobber given explicitly
+        for explicit in (None, True):
+            self.clobber_twin(d, f"{n}{'e' if explicit else 'd'}", asm, prtxt, fmt, wl, subset, clean, case, explicit, ctx)
+
+    def clobber_twin(self, d, n, asm, prtxt, fmt, wl, subset, clean, case, explicit, ctx):
         ctx.evaluations += 1
         outd = self.fresh_out(d, f"c{n}")
         for name in subset:
             (outd / name).write_bytes(SENTINEL + name.encode())
-        rc, _o, err, _exc = cli.invoke_p2a(self.args(asm, prtxt, outd, fmt, wl, True if n % 2 else None))
+        rc, _o, err, _exc = cli.invoke_p2a(self.args(asm, prtxt, outd, fmt, wl, explicit))
         after = cli.dir_files(outd)
         if rc != 0:
-            ctx.violation("clobber-run-fails", case, f"exit {rc}: {err[-300:]!r}")
+            ctx.violation("clobber-run-fails" + ("" if explicit else "/default"), case, f"exit {rc}: {err[-300:]!r}")
         else:
             norm = lambda files: {k: (v.replace(str(outd).encode(), b"<OUT>") if k.endswith(".log") else v) for k, v in files.items()}  # noqa: E731
             a = norm(after)
